@@ -329,6 +329,31 @@ theorem judge_matcher_exact (segs : List Seg) (path : Str) :
 theorem judge_decompositions_exact (segs : List Seg) (w : Str) (b : List (Str × Str)) :
     b ∈ decomps segs w ↔ TplMatches segs w b := mem_decomps segs w b
 
+/-! ## Requests served one after another through `mux.ToHandler` -/
+
+/-- `mux.ToHandler` — the adapter through which every udp/tcp/dtls server calls the router — hands `ServeCOAP` a
+    `mux.Message` whose `RouteParams` is an object built for this request alone (`new(RouteParams)`; fact regenerated from
+    the AST of mux/muxResponseWriter.go, the recogniser fails closed on any other shape of the call).  This is what
+    entitles the model to start every dispatch from empty route parameters (`serveWith` calls `matchRoute order p {}`):
+    `Router.Match` only ADDS the variables of the matched pattern, so with a recycled object the variables of earlier
+    requests would survive (see the example below). -/
+theorem toHandler_fresh_route_params : toHandlerFreshRouteParams = true := by decide
+
+/-- what would happen with a recycled `RouteParams`: `Match` on `/a` (pattern without variables) keeps a stale `x` -/
+example : (match ({} : Router).handle ['/', 'a'] (some (.named "h")) with
+    | .ok r => (match matchRoute r.z ['/', 'a'] ⟨[], some [(['x'], ['1'])], []⟩ with
+                | .ok (_, rp) => rp.vars
+                | .error _ => none)
+    | .error _ => none) = some [(['x'], ['1'])] := by decide
+
+/-- Requests served one after another (each with whatever order the map yields that time): every single outcome is
+    admissible on its own — the variables a handler receives are exactly those of the dispatched pattern for THIS path
+    (none at all for a pattern without variables and for the default handler), whatever was served before. -/
+theorem sequence_independent (r : Router) (hwf : WF r) (reqs : List (List (Str × Route) × Option Str))
+    (hperm : ∀ q ∈ reqs, q.1.Perm r.z) :
+    ∀ q ∈ reqs, AdmissibleSpec r.middlewares r.defaultHandler r.z (filterPath (q.2.getD [])) (r.serveCOAP q.1 q.2) :=
+  fun q hq => dispatch_spec_independent r hwf q.1 (hperm q hq) q.2
+
 /-! ## middleware_order -/
 
 /-- The loop of `ServeCOAP` (from the last registered middleware down to the first) builds
@@ -396,6 +421,8 @@ open CoapVerif.Props.C17
 #print axioms dispatch_spec_independent
 #print axioms judge_matcher_exact
 #print axioms judge_decompositions_exact
+#print axioms toHandler_fresh_route_params
+#print axioms sequence_independent
 #print axioms middleware_order
 #print axioms middleware_trace
 #print axioms lock_discipline
